@@ -852,6 +852,7 @@ class GCodeBuilder(GCodeCore):
         mode = ProbingMode(mode)
         point, params, comment = self._process_move_params(point, **kwargs)
         move, target_axes = self._transform_move(point)
+        self._validate_move(target_axes, params)
 
         # Prepare the G-code statement parameters
 
@@ -988,11 +989,44 @@ class GCodeBuilder(GCodeCore):
             ParamsDict: The updated movement parameters
         """
 
+        self._validate_move_params(params)
+
         if params.get("F") is not None:
             self.state._set_feed_rate(params.get("F"))
 
         if params.get("S") is not None:
             self.state._set_tool_power(params.get("S"))
+
+    def _validate_move_params(self, params: ParamsDict) -> None:
+        """Validate the tracked movement parameters without storing them.
+
+        Args:
+            params: The current movement parameters
+
+        Raises:
+            ValueError: If feed rate or tool power are not valid
+        """
+
+        if params.get("F") is not None:
+            self.state._validate_feed_rate(params.get("F"))
+
+        if params.get("S") is not None:
+            self.state._validate_tool_power(params.get("S"))
+
+    def _validate_move(self, axes: Point, params: ParamsDict) -> None:
+        """Validate a movement before anything is written or tracked.
+
+        Args:
+            axes: The new position of all axes
+            params: The movement parameters used in the command
+
+        Raises:
+            ValueError: If the target or the parameters are not valid
+        """
+
+        super()._validate_move(axes, params)
+        self._validate_move_params(params)
+        self.state._validate_axes(axes)
 
     def _update_axes(self, axes: Point, params: ParamsDict) -> None:
         """Update the internal state after a movement.
@@ -1005,6 +1039,7 @@ class GCodeBuilder(GCodeCore):
             params: The movement parameters used in the command
         """
 
+        self.state._validate_axes(axes)
         super()._update_axes(axes, params)
         self.state._set_params(self._current_params)
         self.state._set_axes(self._current_axes)
